@@ -637,7 +637,10 @@ fn mvn_suite(run: &Run) {
             ("diag+rank1", (0..dim * dim).map(|t| if t / dim == t % dim { 3.0 + (t / dim) as f64 } else { 1.0 }).collect()),
             ("tridiag", super::lin::tridiag(dim, -1.0, 4.0, -1.0)),
         ];
-        for (cname, cov) in covs {
+        // the same covariances at standard deviations of ~2e-3 and ~1e3 around means of ~1e3 (|mean|/sd up to 1e6)
+        let covs: Vec<(String, Vec<f64>, f64)> = covs.into_iter().flat_map(|(n, c)| [1.0f64, 2e-3, 1e3, 0.0078125].into_iter().map(move |sc| (if sc == 1.0 { n.to_string() } else { format!("{}·{}²", n, sc) }, c.iter().map(|v| v * sc * sc).collect::<Vec<f64>>(), sc))).collect();
+        for (cname, cov, sc) in covs {
+            let cname = cname.as_str();
             // exact inverse and determinant
             let r: Vec<Rat> = cov.iter().map(|v| Rat::from_f64(*v)).collect();
             let id: Vec<Rat> = (0..dim * dim).map(|t| if t / dim == t % dim { Rat::ONE } else { Rat::ZERO }).collect();
@@ -645,7 +648,7 @@ fn mvn_suite(run: &Run) {
                 (Some(i), Some(d)) => (i.iter().map(|x| x.to_f64()).collect::<Vec<_>>(), d.to_f64()),
                 _ => continue,
             };
-            let mu: Vec<f64> = (0..dim).map(|i| [0.5, -1.0, 2.0, 0.0, 1e3, -3.0][i]).collect();
+            let mu: Vec<f64> = (0..dim).map(|i| if sc == 1.0 { [0.5, -1.0, 2.0, 0.0, 1e3, -3.0][i] } else { [1e3, -2e3, 1.5e3, 999.0, 1e3, -3e3][i] }).collect();
             let made = guard(|| MVN::new(Vector::new(mu.clone()), Matrix::new(cov.clone(), dim as i32, dim as i32)));
             run.tr();
             let mvn = match made {
@@ -674,7 +677,9 @@ fn mvn_suite(run: &Run) {
                 run.trs(2);
                 run.ok();
                 run.nontrivial(1);
-                let x: Vec<f64> = (0..dim).map(|i| mu[i] + off[i]).collect();
+                let x: Vec<f64> = (0..dim).map(|i| mu[i] + off[i] * sc).collect();
+                // the offset the object actually sees (x - mean is exact for such close values)
+                let off: Vec<f64> = (0..dim).map(|i| x[i] - mu[i]).collect();
                 let mut q = 0.0;
                 for i in 0..dim {
                     for j in 0..dim {
@@ -722,7 +727,7 @@ pub fn run(run: &Run) {
     disc.par_iter().for_each(|d| check_disc(run, d));
     run.sample(|| "Poisson(lambda=3): pmf(k) for k=-3..=63 against exp(k ln 3 - 3 - lgamma(k+1)); sum = 1; mean and variance of that same function".to_string());
     // Normal cdf
-    for &(mu, sigma) in &[(0.0, 1.0), (10.0, 20.0), (-1e3, 1e-3), (1.0, 0.5)] {
+    for &(mu, sigma) in &[(0.0, 1.0), (10.0, 20.0), (-1e3, 1e-3), (1.0, 0.5), (0.0, 2.0), (3.0, 0.02), (0.0, 1e-3), (-7.0, 300.0)] {
         let d = Normal::new(mu, sigma);
         for i in -800i32..=800 {
             let z = i as f64 / 100.0;
@@ -736,6 +741,24 @@ pub fn run(run: &Run) {
                 run.violate("Normal/cdf", || format!("Normal({}, {}).cdf({:e}) = {:e}, true {:e}", mu, sigma, x, g, want));
             } else {
                 run.outcome(&("cdf", i.signum()));
+            }
+        }
+        // towards the mean on a geometric lattice (|z| = 7e-1 .. 1e-16)
+        for k in 1..=16 {
+            for &m in &[1.0, 2.5, 7.0] {
+                for &sg in &[1.0, -1.0] {
+                    let z = sg * m * 10f64.powi(-k);
+                    let x = mu + z * sigma;
+                    run.case();
+                    run.tr();
+                    run.ok();
+                    run.nontrivial(1);
+                    let want = norm_cdf((x - mu) / sigma);
+                    let g = d.cdf(x);
+                    if !((g - want).abs() <= 1.5e-7) {
+                        run.violate("Normal/cdf", || format!("Normal({}, {}).cdf(mean + {:e} sd) = {:e}, true {:e}", mu, sigma, z, g, want));
+                    }
+                }
             }
         }
         // cdf is the integral of pdf
